@@ -142,7 +142,14 @@ func SingleMain(id, tier string, seed int64, space string, index uint64, verbose
 			continue
 		}
 		c := NewCtx(id, tier, seed)
-		res := runChunk(c, spaces, si, index, index+1)
+		from := index
+		if f := os.Getenv("VERIF_SINGLE_FROM"); f != "" {
+			// the cases from..index in this one process: a failure that needs what earlier cases left behind
+			if v, err := strconv.ParseUint(f, 10, 64); err == nil && v <= index {
+				from = v
+			}
+		}
+		res := runChunk(c, spaces, si, from, index+1)
 		if res.Panic != "" {
 			fmt.Printf("HARNESS-PANIC %s\n", res.Panic)
 			return 3
@@ -174,6 +181,7 @@ type chunk struct {
 
 type crash struct {
 	space int
+	lo    uint64 // first case the dead worker had run in this process
 	index uint64
 	kind  string // "died" | "hang"
 	info  string
@@ -453,7 +461,7 @@ func RunCheck(id, tier string, seed int64) int {
 					w.stop()
 					w = nil
 					mu.Lock()
-					crashes = append(crashes, crash{c.space, idx, kind, info})
+					crashes = append(crashes, crash{c.space, c.lo, idx, kind, info})
 					mu.Unlock()
 					if spaces[c.space].Serial {
 						continue
@@ -488,17 +496,27 @@ func RunCheck(id, tier string, seed int64) int {
 	}
 
 	// crashes become violations after confirmation (5 fresh executions)
-	if len(crashes) > 3 {
-		res.Caps = append(res.Caps, fmt.Sprintf("%d worker losses; only the first 3 were confirmed and reported", len(crashes)))
-		sort.Slice(crashes, func(i, j int) bool {
-			if crashes[i].space != crashes[j].space {
-				return crashes[i].space < crashes[j].space
-			}
-			return crashes[i].index < crashes[j].index
-		})
-		crashes = crashes[:3]
+	sort.Slice(crashes, func(i, j int) bool {
+		if crashes[i].space != crashes[j].space {
+			return crashes[i].space < crashes[j].space
+		}
+		return crashes[i].index < crashes[j].index
+	})
+	if len(crashes) > 12 {
+		res.Caps = append(res.Caps, fmt.Sprintf("%d worker losses; only the first 12 were examined", len(crashes)))
+		crashes = crashes[:12]
 	}
+	if len(crashes) > 0 {
+		// cases a dead worker had finished are re-run, but the run is not a clean sweep any more: say so
+		res.Exhaustive = false
+		res.Caps = append(res.Caps, fmt.Sprintf("%d worker process(es) died or hung during the run", len(crashes)))
+	}
+	confirmedLosses := 0
 	for _, cr := range crashes {
+		if confirmedLosses >= 3 {
+			res.Caps = append(res.Caps, "3 worker losses confirmed and reported; the others were not examined")
+			break
+		}
 		sp := spaces[cr.space]
 		v := Violation{Property: id, Tier: tier, Seed: seed, Space: sp.Name, Index: cr.index,
 			Class: "process-" + cr.kind, Detail: cr.info}
@@ -509,7 +527,7 @@ func RunCheck(id, tier string, seed int64) int {
 		okc := 0
 		const tries = 5
 		for k := 0; k < tries; k++ {
-			code, _ := runSingle(id, tier, seed, sp.Name, cr.index, time.Duration(wd)*time.Second)
+			code, _ := runSingle(id, tier, seed, sp.Name, cr.index, noPrefix, time.Duration(wd)*time.Second)
 			if code != 0 && code != 1 {
 				okc++
 			}
@@ -518,10 +536,23 @@ func RunCheck(id, tier string, seed int64) int {
 		if okc == tries {
 			res.Viols = append(res.Viols, v)
 			res.ViolCount++
+			confirmedLosses++
 		} else if okc > 0 {
 			v.Class += "-unstable"
 			res.Viols = append(res.Viols, v)
 			res.ViolCount++
+			confirmedLosses++
+		} else if pre := prefixLoss(id, tier, seed, sp.Name, cr.lo, cr.index, time.Duration(wd)*time.Second); pre == 3 {
+			// alone the case is fine: what kills the process is state left behind by the cases the worker had
+			// run before it. Re-running exactly those cases and this one in a fresh process shows it every time.
+			lo := cr.lo
+			v.From = &lo
+			v.Class += "-after-earlier-cases"
+			v.Confirm = fmt.Sprintf("0/%d alone, 3/3 when the cases %d..%d run in one fresh process", tries, cr.lo, cr.index)
+			v.Input = fmt.Sprintf("cases %d..%d of this space in one process; the last one is %s", cr.lo, cr.index, v.Input)
+			res.Viols = append(res.Viols, v)
+			res.ViolCount++
+			confirmedLosses++
 		} else {
 			fmt.Fprintf(os.Stderr, "note: worker loss at %s[%d] (%s) did not reproduce in 5 isolated executions; not a verdict\n", sp.Name, cr.index, cr.kind)
 			res.Caps = append(res.Caps, fmt.Sprintf("worker loss at %s[%d] not reproduced", sp.Name, cr.index))
@@ -593,7 +624,7 @@ func RunCheck(id, tier string, seed int64) int {
 			// re-execute to make sure the same case fails every time
 			okc := 0
 			for k := 0; k < 3; k++ {
-				code, _ := runSingle(id, tier, seed, v.Space, v.Index, time.Duration(wd)*time.Second)
+				code, _ := runSingle(id, tier, seed, v.Space, v.Index, noPrefix, time.Duration(wd)*time.Second)
 				if code == 1 {
 					okc++
 				}
@@ -651,10 +682,30 @@ func firstLines(s string, n int) string {
 	return strings.Join(l, " | ")
 }
 
-func runSingle(id, tier string, seed int64, space string, index uint64, timeout time.Duration) (int, string) {
+const noPrefix = ^uint64(0)
+
+// prefixLoss re-runs the cases lo..index in one fresh process three times; returns how often it died or hung.
+func prefixLoss(id, tier string, seed int64, space string, lo, index uint64, timeout time.Duration) int {
+	if lo >= index {
+		return 0
+	}
+	n := 0
+	for k := 0; k < 3; k++ {
+		code, _ := runSingle(id, tier, seed, space, index, lo, timeout)
+		if code != 0 && code != 1 {
+			n++
+		}
+	}
+	return n
+}
+
+func runSingle(id, tier string, seed int64, space string, index uint64, from uint64, timeout time.Duration) (int, string) {
 	exe, _ := os.Executable()
 	cmd := exec.Command(exe, "single", id, tier, strconv.FormatInt(seed, 10), space, strconv.FormatUint(index, 10))
 	cmd.Env = append(os.Environ(), "GOMAXPROCS=1", "GOTRACEBACK=single")
+	if from != noPrefix {
+		cmd.Env = append(cmd.Env, "VERIF_SINGLE_FROM="+strconv.FormatUint(from, 10))
+	}
 	var tb tailBuf
 	cmd.Stdout = &tb
 	cmd.Stderr = &tb
@@ -793,6 +844,10 @@ func ReplayMain(path string) int {
 		return 2
 	}
 	fmt.Printf("replaying %s %s[%d] class=%s\n", v.Property, v.Space, v.Index, v.Class)
+	if v.From != nil {
+		os.Setenv("VERIF_SINGLE_FROM", strconv.FormatUint(*v.From, 10))
+		fmt.Printf("(the cases %d..%d run in one process)\n", *v.From, v.Index)
+	}
 	code, out := runSingleVerbose(v.Property, v.Tier, v.Seed, v.Space, v.Index)
 	fmt.Print(out)
 	switch code {
